@@ -38,7 +38,7 @@ def arrays_for(case, dtype=np.float64):
             a = values.make(p, s, salt=7 * i)
             m = case.get("vmod")
             if m and p == "generic":
-                a = {"tiny": a * 1e-4, "large": a * 1e3, "offset": a + 1e5}[m]
+                a = {"tiny": a * 1e-4, "large": a * 1e3, "offset": a + 1e5, "zeros": a * 0.0, "ones": a * 0.0 + 1.0}[m]
             out.append(np.asarray(a, dtype=dtype))
     return out
 
